@@ -622,11 +622,11 @@ F("av_pair", ret="c", props=["C07"],
   post="proof { assert(c.fields() =~= av_pair_view()->Comp_0); }")
 SUM8 = "(if check_sum is Some { check_sum->Some_0@.take(8) } else { zeros(8) })"
 SEQ = "(if seq_num is Some { seq_num->Some_0 } else { 0u32 })"
-F("message_signature_ex", ret="c", props=["C16", "C04", "C07"], fuel=5,
+F("message_signature_ex", ret="c", props=["C16", "C04", "C07", "C01"], fuel=5,
   requires=["check_sum is Some ==> check_sum->Some_0@.len() >= 8"],
   ensures=shape_clauses(NTLM, "message_signature_ex", res="c") + [
-      ("C16,C04", "view", "c.mv() == signature_view(%s, %s)" % (SUM8, SEQ)),
-      ("C16,C04", "bytes", "ser(c.mv()) =~= le32(1) + %s + le32(%s)" % (SUM8, SEQ))],
+      ("C16,C04,C01", "view", "c.mv() == signature_view(%s, %s)" % (SUM8, SEQ)),
+      ("C16,C04,C01", "bytes", "ser(c.mv()) =~= le32(1) + %s + le32(%s)" % (SUM8, SEQ))],
   post="proof { let f = c.fields(); assert(f[1].1->Bytes_0 =~= %s); assert(f =~= signature_view(%s, %s)->Comp_0); }" % (SUM8, SUM8, SEQ))
 F("read_target_info", props=["C07"], nloops=1,
   loops={1: "invariant stream.rest().len() <= data@.len(), values_bounded(&result, data@.len() as int)\n decreases stream.rest().len()"},
